@@ -178,6 +178,127 @@ def check_registry(c, rng, mo):
         return c.check(False, 'C05:registry:raises', 'registry round raised %r' % e, call)
 
 
+# ----------------------------------------------------------------------------------------------- registry histories
+# "a calendar fetched by key reflects the holidays it was last registered with": a registration is a call of calendar(key, ...) that
+# passes at least one of holidays / weekend / t0 / t1 (anything other than None counts as passed - an EMPTY holiday list or an empty
+# weekend is a registration with no holidays / no weekend, not a plain fetch); calendar(key) alone is a fetch.
+TMIN, TMAX = D(1900, 1, 1), D(2300, 1, 1)
+HOL_FORMS = ['none', 'empty-list', 'empty-tuple', 'H1', 'H2']
+WE_FORMS = ['none', 'empty-list', 'mon-scalar', 'sun', 'sat-sun', 'fri-sat']
+RANGE_FORMS = ['none', 'given']
+_WE = {'empty-list': [], 'mon-scalar': 0, 'sun': [6], 'sat-sun': [5, 6], 'fri-sat': [4, 5]}
+
+
+def reg_window(base):
+    """the 42 days on which a fetched calendar is compared with the model, and two different non-empty holiday sets inside them"""
+    w0 = base + 100 * DAY
+    days = [w0 + i * DAY for i in range(42)]
+    H1 = [days[i] for i in (1, 2, 8, 9, 10, 17, 25, 33)]       # every weekday occurs in H1 or H2 and in neither
+    H2 = [days[i] for i in (3, 9, 11, 12, 20, 27, 28, 36)]
+    return days, H1, H2
+
+
+def reg_args(form, base):
+    """form = (holidays form, weekend form, range form) -> (kwargs for calendar(), model (weekend set, holiday set, t0, t1) or None for a fetch)"""
+    hf, wf, rf = form
+    days, H1, H2 = reg_window(base)
+    kw = {}
+    if hf != 'none':
+        kw['holidays'] = {'empty-list': [], 'empty-tuple': (), 'H1': list(H1), 'H2': list(H2)}[hf]
+    if wf != 'none':
+        kw['weekend'] = list(_WE[wf]) if isinstance(_WE[wf], list) else _WE[wf]
+    if rf == 'given':
+        kw['t0'], kw['t1'] = base, base + 300 * DAY
+    if not kw:
+        return kw, None
+    we = [5, 6] if wf == 'none' else ([_WE[wf]] if not isinstance(_WE[wf], list) else _WE[wf])
+    hol = {'none': [], 'empty-list': [], 'empty-tuple': [], 'H1': H1, 'H2': H2}[hf]
+    return kw, (set(we), set(hol), kw.get('t0', TMIN), kw.get('t1', TMAX))
+
+
+def reg_class(form):
+    """input class of a registration for the violation key: falsy-but-not-None arguments get their own class"""
+    hf, wf, rf = form
+    if hf in ('empty-list', 'empty-tuple'):
+        return ':empty-holidays'
+    if wf in ('empty-list', 'mon-scalar'):
+        return ':falsy-weekend'
+    return ''
+
+
+def check_registry_history(c, base, forms, via_object=False):
+    """forms: a sequence of registration forms applied to ONE key; after each step calendar(key) must reflect the last registration.
+    via_object: the first registration hands a Calendar object to calendar() (registered under the object's key)"""
+    from pyg_base import calendar, Calendar
+    key = new_key('hist')
+    days, H1, H2 = reg_window(base)
+    call = dict(kind='reghist', base=base.toordinal(), forms=[list(f) for f in forms], via_object=bool(via_object))
+    model = None
+    ok = True
+    try:
+        for step, form in enumerate(forms):
+            kw, mo = reg_args(tuple(form), base)
+            txt = 'key registered by %s; step %d calendar(key%s)' % (
+                [reg_args(tuple(f), base)[0] and sorted(reg_args(tuple(f), base)[0]) or 'fetch' for f in forms[:step]], step,
+                ''.join(', %s=%s' % (k, ('[%d days]' % len(v)) if k == 'holidays' and len(v) else v) for k, v in kw.items()))
+            if step == 0 and via_object and mo is not None:
+                got = calendar(Calendar(key, **kw))
+            else:
+                got = calendar(key, **kw)
+            if mo is not None:
+                model = mo
+            elif model is None:
+                model = ({5, 6}, set(), TMIN, TMAX)              # a fetch of an unknown key creates the default calendar
+            we, hol, t0, t1 = model
+            cls = reg_class(tuple(form)) if mo is not None else ''
+            for which, cal in (('returned', got), ('fetched', calendar(key))):
+                bad = [t for t in days if bool(cal.is_bday(t)) != (t.weekday() not in we and t not in hol)]
+                ok &= c.check(not bad, 'C05:registry:last' + cls, '%s: the %s calendar has is_bday wrong on %s (weekend %s, holidays %s; last registered with weekend %s, %d holidays)'
+                              % (txt, which, [str(b)[:10] for b in bad[:3]], list(cal.weekend), [str(h)[:10] for h in list(cal.holidays)[:3]], sorted(we), len(hol)), call)
+            if not ok:
+                return False                 # later steps of this history only repeat the consequence
+            cal = calendar(key)
+            isb = lambda t: t.weekday() not in we and t not in hol       # noqa
+            if len(we) < 7:
+                for t in (days[5], days[18], days[30]):
+                    e = t
+                    while not isb(e):
+                        e += DAY
+                    n = 4 if (t1 - t0).days < 1000 else 1                   # the table path only on short calendars (building 400 years of table per step is slow)
+                    k = n
+                    while k:
+                        e += DAY
+                        k -= isb(e)
+                    r = cal.adjust(t, 'f')
+                    r = cal.add(r, n)
+                    ok &= c.check(r == e, 'C05:registry:last' + cls, '%s: add(adjust(%s,"f"),%d) = %s, counting over the last registration gives %s' % (txt, str(t)[:10], n, r, e), call)
+        return ok
+    except Exception as e:      # noqa
+        return c.check(False, 'C05:registry:raises', 'registry history %s raised %r' % (forms, e), call)
+
+
+def registry_histories(quick):
+    """every ordered pair (previous registration, next step) of argument forms (quick tier: six representative previous registrations
+    against every next step) - holidays in {not passed, [], (), H1, H2} x weekend in
+    {not passed, [], 0 (Monday as a scalar), [6], [5,6], [4,5]} x range in {not passed, given}; the next step may be a plain fetch -
+    then three-step histories registration, falsy re-registration, registration"""
+    forms = [(h, w, r) for h in HOL_FORMS for w in WE_FORMS for r in RANGE_FORMS]
+    regs = [f for f in forms if f != ('none', 'none', 'none')]
+    first = regs if not quick else [('H1', 'sun', 'given'), ('H1', 'none', 'none'), ('none', 'fri-sat', 'given'), ('H2', 'sat-sun', 'none'),
+                                    ('empty-list', 'empty-list', 'given'), ('H2', 'mon-scalar', 'none')]
+    for a in first:
+        for b in forms:
+            yield [a, b]
+    falsy = [f for f in regs if reg_class(f)]
+    full = [('H1', 'sun', 'given'), ('H2', 'none', 'none'), ('H1', 'fri-sat', 'none')]
+    for a in full:
+        for b in falsy:
+            for d in (full + [('none', 'none', 'none')] if not quick else [full[(full.index(a) + 1) % 3], ('none', 'none', 'none')]):
+                yield [a, b, d]
+                if not quick:
+                    yield [a, b, b, d]
+
+
 def configurations(rng, count):
     """every weekend x adj x density combination once per 48, holiday sets and ranges seeded"""
     combos = [(we, adj, dens) for we in WEEKENDS for adj in ADJS for dens in DENSITIES]
@@ -204,8 +325,13 @@ def run(tier, seed):
                        '(plus 2-9 day runs across month ends and across weekends), ranges of 330-420 days anchored at 1900-01-01 (TMIN), 1999, 2019, 2023, 2099 '
                        'and ending at 2300-01-01 (TMAX), a fresh key each; per configuration every day between the first and last business day for '
                        'is_bday/adjust f,p,m; for add/bdays/inverse/step-vs-table every such day x n in [-3,3] plus %d seeded n of [-40,40] (results kept inside '
-                       'the range); 12 Calendar.drange(a,b,"1b") spans; one registry round (register, fetch, re-register, fetch). Oracle counts day by day. '
-                       'A case is (configuration, day, n); non-trivial when n != 0 or the day is not a business day.' % (n_cfg, n_extra),
+                       'the range); 12 Calendar.drange(a,b,"1b") spans; one registry round (register, fetch, re-register, fetch). Registry histories on one key: '
+                       '%s (registration, next step) over the argument forms of calendar(key, ...) - holidays in {not passed, [], (), H1, H2} x weekend in '
+                       '{not passed, [], 0, [6], [5,6], [4,5]} x t0/t1 in {not passed, given}, the next step possibly a plain fetch - plus three-step histories through a '
+                       'falsy re-registration, the first registration also through a Calendar object; after every step the returned and the fetched calendar are compared '
+                       'with the last registration on 42 days (is_bday, add). Oracle counts day by day. '
+                       'A case is (configuration, day, n); non-trivial when n != 0 or the day is not a business day.'
+                       % (n_cfg, n_extra, 'six representative registrations x every next step as ordered pairs' if quick else 'every ordered pair'),
                   exhaustive=False, scope='%d configurations x ~370 days x n in [-40,40] (sampled beyond |n|<=3)' % n_cfg)
     jobs = [(seed, ci, n_extra, cfg) for ci, cfg in enumerate(configurations(rng, n_cfg))]
     if quick:
@@ -227,6 +353,14 @@ def run(tier, seed):
     if not quick:
         pool.close()
         pool.join()
+    # registry histories: the argument forms of calendar(key, ...) (passed / not passed / passed but falsy) in every order, one fresh key each
+    for base in ([D(2019, 11, 11)] if quick else [D(2019, 11, 11), D(1900, 1, 1), D(2298, 12, 1)]):
+        for forms in registry_histories(quick):
+            for via_object in ((False, True) if forms[0][2] == 'given' and len(forms) == 2 and forms[1][0] in ('none', 'H1', 'H2') and forms[1][1] in ('none', 'sun', 'sat-sun', 'fri-sat') else (False,)):
+                check_registry_history(c, base, forms, via_object)
+                c.case(('reghist', base.toordinal(), repr(forms), via_object))
+                distinct += 1
+    c.samples.append(dict(registry_history=[['H1', 'sun', 'given'], ['empty-list', 'none', 'none']], meaning='calendar(key, holidays=H1, weekend=[6], t0=, t1=) then calendar(key, holidays=[]) then fetch'))
     res = c.result()
     res['distinct_nontrivial'] = distinct          # cases of different configurations are distinct by construction
     return res
@@ -264,6 +398,11 @@ def run_config(job):
 
 
 def replay(call):
+    if call.get('kind') == 'reghist':
+        c = Collector('C05', 'replay')
+        check_registry_history(c, D.fromordinal(int(call['base'])), [tuple(f) for f in call['forms']], bool(call.get('via_object')))
+        v = list(c.violations.values())
+        return dict(fails=bool(v), detail=v[0]['what'] if v else 'after every step calendar(key) reflects the last registration')
     if call.get('kind') != 'cal':
         return dict(fails=None, detail='no replay for kind %r' % call.get('kind'))
     hol = [D.fromordinal(int(o)) for o in call['holidays']]
